@@ -661,7 +661,7 @@ class Progress(JupyterMixin, RenderHook):
             self.console.push_render_hook(self)
             try:
                 self.refresh()
-            except Exception:
+            except BaseException:
                 # the first render failed: undo everything start() has done so far
                 self._started = False
                 self.console.pop_render_hook()
